@@ -9,6 +9,7 @@
 (*   ind_*   counts recomputed from the suite's merged execution trace and  *)
 (*           the registries, independently of the report                    *)
 (*   covered_lines   lines the suite's merged trace covers                  *)
+(*   xml     <line number, hits> of the rendered cov_report.xml             *)
 (***************************************************************************)
 EXTENDS Naturals, Integers, Sequences, FiniteSets, Folds, Functions, TLC, TLCExt, Json, IOUtils
 
@@ -52,4 +53,12 @@ LineShownCoveredIffCovered ==
   (IsRep /\ cur.has_line) =>
     \A i \in DOMAIN cur.ann :
       cur.ann[i].l.ex > 0 => ((cur.ann[i].l.cov = cur.ann[i].l.ex) = (cur.ann[i].line \in SetOf(cur.covered_lines)))
+(* the rendered XML report marks a line as hit exactly when the report object says that the line *)
+(* or something on it (a branch, a branch-less code object) is covered                          *)
+XmlHitsFollowAnnotations ==
+  IsRep =>
+    \A i \in DOMAIN cur.xml :
+      \E j \in DOMAIN cur.ann :
+        /\ cur.ann[j].line = cur.xml[i].line
+        /\ (cur.xml[i].hits > 0) = (cur.ann[j].l.cov > 0 \/ cur.ann[j].b.cov + cur.ann[j].bl.cov > 0)
 =============================================================================
